@@ -503,16 +503,17 @@ where
 
 /// Flattens what a generated getter returns: Vec-major, tuple-slot-minor.
 pub trait Flat<'i, R: RuleType> {
-    fn flat(&self, out: &mut Vec<Leaf>);
+    fn flat(&self, path: &mut Vec<usize>, out: &mut Vec<Leaf>);
     fn shape() -> String;
 }
 
 impl<'a, 'i, R: RuleType, T: Pairs<'i, R> + Debug> Flat<'i, R> for &'a T {
-    fn flat(&self, out: &mut Vec<Leaf>) {
+    fn flat(&self, path: &mut Vec<usize>, out: &mut Vec<Leaf>) {
         out.push(Leaf {
             tokens: self.self_or_children().iter().map(token_to_tok).collect(),
             debug: format!("{:?}", self),
             addr: *self as *const T as usize,
+            path: path.iter().map(|i| i.to_string()).collect::<Vec<_>>().join("."),
         });
     }
     fn shape() -> String {
@@ -521,9 +522,9 @@ impl<'a, 'i, R: RuleType, T: Pairs<'i, R> + Debug> Flat<'i, R> for &'a T {
 }
 
 impl<'i, R: RuleType, F: Flat<'i, R>> Flat<'i, R> for Option<F> {
-    fn flat(&self, out: &mut Vec<Leaf>) {
+    fn flat(&self, path: &mut Vec<usize>, out: &mut Vec<Leaf>) {
         if let Some(x) = self {
-            x.flat(out)
+            x.flat(path, out)
         }
     }
     fn shape() -> String {
@@ -532,9 +533,9 @@ impl<'i, R: RuleType, F: Flat<'i, R>> Flat<'i, R> for Option<F> {
 }
 
 impl<'i, R: RuleType, F: Flat<'i, R>> Flat<'i, R> for Vec<F> {
-    fn flat(&self, out: &mut Vec<Leaf>) {
+    fn flat(&self, path: &mut Vec<usize>, out: &mut Vec<Leaf>) {
         for x in self {
-            x.flat(out)
+            x.flat(path, out)
         }
     }
     fn shape() -> String {
@@ -545,8 +546,8 @@ impl<'i, R: RuleType, F: Flat<'i, R>> Flat<'i, R> for Vec<F> {
 macro_rules! flat_tuple {
     ($($T:ident $i:tt),+) => {
         impl<'i, R: RuleType, $($T: Flat<'i, R>),+> Flat<'i, R> for ($($T,)+) {
-            fn flat(&self, out: &mut Vec<Leaf>) {
-                $( self.$i.flat(out); )+
+            fn flat(&self, path: &mut Vec<usize>, out: &mut Vec<Leaf>) {
+                $( path.push($i); self.$i.flat(path, out); path.pop(); )+
             }
             fn shape() -> String {
                 let v: Vec<String> = vec![$($T::shape()),+];
@@ -569,6 +570,6 @@ flat_tuple!(A 0, B 1, C 2, D 3, E 4, F 5, G 6, H 7, I 8, J 9, K 10, L 11);
 
 pub fn getter_obs<'i, R: RuleType, F: Flat<'i, R>>(name: &str, value: F) -> GetterObs {
     let mut leaves = Vec::new();
-    value.flat(&mut leaves);
+    value.flat(&mut Vec::new(), &mut leaves);
     GetterObs { name: name.to_string(), shape: F::shape(), leaves }
 }
